@@ -5,6 +5,7 @@
 import J1939.Gen.Eval
 import J1939.Model.Ecu
 import J1939.Model.Dm1
+import J1939.Model.Dll21
 namespace J1939.Driver
 open J1939 J1939.Gen
 
@@ -31,10 +32,48 @@ structure EcuSt where
   preds : List (List Nat) := []      -- predicate k accepts the destinations listed
 deriving Inhabited
 
+structure D21St where
+  cfg : Dll21.Cfg := {}
+  st  : Dll21.St := {}
+  acc : List Nat := []               -- destinations a listener / CA accepts
+deriving Inhabited
+
 structure St where
   now  : Nat := 1000000000          -- virtual clock (µs); starts at 1000 s so that deadlines are never 0
   ecus : List EcuSt := []
+  d21  : List D21St := []
 deriving Inhabited
+
+def showOut21 : Dll21.Out → String
+  | .tx f => s!"tx {f.id} {showList f.data}"
+  | .notify prio pgn sa dest data => s!"notify {prio} {pgn} {sa} {dest} {showList data}"
+  | .claim sa data => s!"claim {sa} {showList data}"
+  | .request sa dest data => s!"request {sa} {dest} {showList data}"
+  | .wake => "wake"
+
+def showOptNat : Option Nat → String
+  | none => "-"
+  | some v => toString v
+
+def showOptInt : Option Int → String
+  | none => "-"
+  | some v => toString v
+
+def dumpD21 (s : Dll21.St) : String :=
+  let r := ",".intercalate (s.rcv.map fun (k, b) =>
+    s!"{k}:{b.pgn}:{b.messageSize}:{b.numPackages}:{b.nextPacket}:{b.maxCmdt}:{showOptNat b.maxRec}:{b.deadline}:{b.src}:{b.dest}:{showList b.data}")
+  let t := ",".intercalate (s.snd.map fun (k, b) =>
+    s!"{k}:{b.pgn}:{b.priority}:{b.messageSize}:{b.numPackages}:{b.state}:{b.deadline}:{b.src}:{b.dest}:{b.next}:{showOptInt b.waitOn}:{showList b.data}")
+  s!"rcv {r} | snd {t}"
+
+def withD21 (st : St) (i : Nat) (f : D21St → D21St × List String) : St × List String :=
+  match st.d21[i]? with
+  | none => (st, ["bad-stack"])
+  | some e => let (e', out) := f e; ({ st with d21 := st.d21.set i e' }, out)
+
+def resLines (r : Dll21.Res) : List String :=
+  r.outs.map showOut21 ++ (match r.err with | some e => [s!"exc {e.name}"] | none => [])
+
 
 open J1939.Ecu
 
@@ -151,6 +190,38 @@ def step (st : St) (line : String) : St × List String :=
   | ["ecu.dump", i] =>
     match i.toNat? with
     | some i => withEcu st i fun e => (e, [dumpCore e.core])
+    | none => (st, ["bad-args"])
+  | ["d21.new", mx, cmdt, bam, acc] =>
+    match mx.toNat?, bam.toNat?, parseList acc with
+    | some mx, some bam, some acc =>
+      let cfg : Dll21.Cfg := { maxCmdt := mx, cmdtInterval := cmdt.toNat?, bamInterval := bam }
+      ({ st with d21 := st.d21 ++ [{ cfg, acc }] }, [])
+    | _, _, _ => (st, ["bad-args"])
+  | ["d21.accept", i, acc] =>
+    match i.toNat?, parseList acc with
+    | some i, some acc => withD21 st i fun e => ({ e with acc }, [])
+    | _, _ => (st, ["bad-args"])
+  | ["d21.send", i, dp, pf, ps, prio, sa, data] =>
+    match i.toNat?, dp.toNat?, pf.toNat?, ps.toNat?, prio.toNat?, sa.toNat?, parseList data with
+    | some i, some dp, some pf, some ps, some prio, some sa, some data => withD21 st i fun e =>
+        let (r, ret) := Dll21.sendPgn e.cfg e.st st.now dp pf ps prio sa data
+        ({ e with st := r.st }, resLines r ++ [if ret then "ret True" else "ret False"])
+    | _, _, _, _, _, _, _ => (st, ["bad-args"])
+  | ["d21.rx", i, cid, data] =>
+    match i.toNat?, cid.toNat?, parseList data with
+    | some i, some cid, some data => withD21 st i fun e =>
+        let r := Dll21.notify e.cfg e.st st.now (fun d => e.acc.contains d) cid data
+        ({ e with st := r.st }, resLines r)
+    | _, _, _ => (st, ["bad-args"])
+  | ["d21.tick", i] =>
+    match i.toNat? with
+    | some i => withD21 st i fun e =>
+        let (r, nw) := Dll21.tick e.cfg e.st st.now
+        ({ e with st := r.st }, resLines r ++ (if r.err.isNone then [s!"wakeup {(nw : Int) - st.now}"] else []))
+    | none => (st, ["bad-args"])
+  | ["d21.dump", i] =>
+    match i.toNat? with
+    | some i => withD21 st i fun e => (e, [dumpD21 e.st])
     | none => (st, ["bad-args"])
   | ["dm1.send", pgn, lamps, flat] =>
     match pgn.toNat?, parseList lamps, parseList flat with
